@@ -20,6 +20,15 @@ def main(argv=None):
     ap.add_argument("--replay", default=None)
     a = ap.parse_args(argv)
     pid = a.pid
+    # watchdog: a check that does not finish is a broken check, not a pass
+    import signal
+
+    def _timeout(signum, frame):
+        print(f"ANALYSIS-ERROR property={pid} analysis did not finish within the time limit")
+        sys.stdout.flush()
+        os._exit(2)
+    signal.signal(signal.SIGALRM, _timeout)
+    signal.alarm(int(os.environ.get("VERIF_TIMEOUT", "900" if a.tier == "quick" else "7200")))
     rf = None
     if a.replay:
         rf = json.load(open(a.replay))
